@@ -538,9 +538,17 @@ TrackerController::receive_success(const tracker::Tracker& tracker, TrackerContr
   if (!(m_flags & flag_active))
     return m_slot_success(l);
 
-  // if (<check if we have multiple trackers to send this event to, before we declare success>) {
-  m_flags &= ~(mask_send | flag_promiscuous_mode | flag_failure_mode);
-  // }
+  // Only a request that carried the pending event delivers it.
+  tracker::TrackerState::event_enum latest_event;
+
+  tracker.lock_and_call_state([&](const tracker::TrackerState& state) {
+      latest_event = state.latest_event();
+    });
+
+  if (latest_event == current_send_event())
+    m_flags &= ~mask_send;
+
+  m_flags &= ~(flag_promiscuous_mode | flag_failure_mode);
 
   // If we still have active trackers, skip the timeout.
 
